@@ -403,6 +403,11 @@ def _expr_txt(e):
         return _expr_txt(e["c"]) + "?" + _expr_txt(e["t"]) + ":" + _expr_txt(e["f"])
     if k == "this":
         return "this"
+    if k == "dep":
+        bt = _expr_txt(e["b"]) if e.get("b") is not None else ""
+        return (bt + "." if bt and bt != "this" else "") + e.get("n", "?")
+    if k == "zero":
+        return "0"
     return "<%s>" % k
 
 
